@@ -26,7 +26,7 @@ ASSUMPTIONS = [
     "with trailing bytes after an RTU frame the served payload must be the prefix of response_data() (the library's "
     "trim keeps the trailing bytes; sensors address the payload by offset)",
 ]
-MUST = ["device_info_arbitrary_bytes", "aa55_header_addresses", "typed_setting_write_echoes", "single_value_entry_points", "aa55_read_length_independent_of_count", "aa55_sum_ge_8000", "aa55_sum_ge_10000", "rtu_trailing", "end_to_end_success", "negative_write_echo", "overlapping_tcp_inverters", "same_object_sequences", "consecutive_slow_or_identical_answers", "requests_from_a_new_event_loop", "write_ack_payload_checked", "answer_from_another_comm_address",
+MUST = ["polls_with_arbitrary_block_contents", "device_info_arbitrary_bytes", "aa55_header_addresses", "typed_setting_write_echoes", "single_value_entry_points", "aa55_read_length_independent_of_count", "aa55_sum_ge_8000", "aa55_sum_ge_10000", "rtu_trailing", "end_to_end_success", "negative_write_echo", "overlapping_tcp_inverters", "same_object_sequences", "consecutive_slow_or_identical_answers", "requests_from_a_new_event_loop", "write_ack_payload_checked", "answer_from_another_comm_address",
         "accepted_rtu", "accepted_tcp", "accepted_aa55"]
 EXHAUSTIVE = {"quick": False, "thorough": False}
 CLASSES = ["random", "ff", "00", "7f80", "fe", "aa55"]
@@ -455,12 +455,27 @@ def device_info_payloads(spec, part):
             sim.info = bytes(blk)
         else:
             sim.set_bytes(35000 if fam == "ET" else 30001, bytes(blk))
+        if fam == "DT":
+            # the two further identification reads of the DT family (model-name fallback 0x9CED x 8, meter version 0x756F x 20) answer in the same style
+            sim.set_bytes(0x9CED, content(16))
+            sim.set_bytes(0x756F, content(40))
+        poll = i % 2 == 1
+        if poll:
+            # ... and so do the runtime blocks: the poll that follows takes every answer as well (what the values decode to is C11's and C12's subject)
+            blk = bytearray(n)
+            sim = models.family_sim(fam, rnd=rnd, style=rnd.choice(("ff", "zero", "sentinel", "random", "smallconst")) if fam != "ES" else rnd.choice(("ff", "zero", "random")))
+            if fam == "ET":
+                sim.regs[35184] = rnd.choice((1, 1, 2, 0xFFFF, 0))
+            part.count("polls_with_arbitrary_block_contents")
         out = {}
 
         async def flow(loop):
             inv = models.family_cls(g, fam)("inv0", port, 0, 1, 0)
             try:
                 await inv.read_device_info()
+                if poll:
+                    await inv.read_runtime_data()
+                    await inv.read_runtime_data()
                 out["how"] = "ok"
             except Exception as e:      # noqa
                 out["how"] = f"{type(e).__name__}: {str(getattr(e, 'message', '') or e)[:80]}"
@@ -471,7 +486,8 @@ def device_info_payloads(spec, part):
         case = {"info": True, "seed": spec["seed"], "i": i}
         if run.stop or run.error is not None or out.get("how") != "ok":
             part.violate(f"C02/{framing}/conforming-answer-not-delivered",
-                         f"{fam} port {port}: read_device_info() against an inverter whose identification block is {bytes(blk).hex()} ({style}) ended "
+                         f"{fam} port {port}: read_device_info()" + (" + 2 x read_runtime_data() against arbitrary runtime block contents" if poll else "") +
+                         f" against an inverter whose identification block is {bytes(blk).hex()} ({style}) ended "
                          f"{out.get('how') or run.stop or repr(run.error)[:100]}: every request was answered with a conforming frame", case)
         else:
             part.count("device_info_arbitrary_bytes")
